@@ -300,8 +300,7 @@ Section Magic.
       /\ map (fun kv => (fst kv, Ok (snd kv))) ka = after.
   Proof.
     unfold Outer.finish_outer. intros H P. rewrite P in H. cbn [apply_post] in H.
-    destruct ex as [[st av]|e|m]; try discriminate.
-    destruct (require_fields _ _ _ _ _) as [st2|e|m]; try discriminate.
+    destruct (outer_state _ _ _ _ _ _ _ _ _ _ _) as [[st2 av]|e|m]; try discriminate.
     destruct (ps_errs st2); [|destruct (multiple _); discriminate].
     match type of H with context [if ob_from_ident b then ?x else ?y] => destruct (if ob_from_ident b then x else y) as [cd|e|m] end;
       try discriminate.
